@@ -53,12 +53,28 @@ fn transfer_family() -> GenParams {
     }
 }
 
+fn pointer_family() -> GenParams {
+    GenParams {
+        family: "pointer",
+        txs: (5, 14),
+        n_eoa: 6,
+        n_con: 1,
+        mix: Mix { slots: 12, ..Mix::default() },
+        kind_w: [16, 0, 0, 0],
+        hot_sender_pct: 10,
+        pointer_contract: true,
+        low_gas_pct: 0,
+        ..GenParams::default()
+    }
+}
+
 pub fn c01() -> SchedCampaign {
     SchedCampaign {
         prop: "C01",
         families: vec![
-            Family { weight: 6, params: conflict_family("hot-slots") },
+            Family { weight: 5, params: conflict_family("hot-slots") },
             Family { weight: 4, params: mixed_family() },
+            Family { weight: 3, params: pointer_family() },
             Family { weight: 1, params: transfer_family() },
         ],
         profiles: ProfileWeights::default(),
@@ -70,7 +86,8 @@ pub fn c02() -> SchedCampaign {
     SchedCampaign {
         prop: "C02",
         families: vec![
-            Family { weight: 8, params: conflict_family("hot-slots") },
+            Family { weight: 6, params: conflict_family("hot-slots") },
+            Family { weight: 6, params: pointer_family() },
             Family {
                 weight: 3,
                 params: GenParams {
